@@ -800,6 +800,37 @@ func needsOptsKind(dest bool, text string) (string, string) {
 	return strings.Join(lines, "\n"), `{"customTraceNumbers":true}`
 }
 
+// needsOptsJSON: the JSON document of a file that is valid only under the options of its side-car file: the text of
+// needsOptsKind read under those options and encoded, with the document's own validateOpts member taken out again
+// (so that the side-car is the only place the options come from).  "" when the library refuses any step.
+func needsOptsJSON(dest bool, text string) (string, string) {
+	t, oj := needsOptsKind(dest, text)
+	var o ach.ValidateOpts
+	if json.Unmarshal([]byte(oj), &o) != nil {
+		return "", ""
+	}
+	rd := ach.NewReader(strings.NewReader(t))
+	rd.SetValidation(&o)
+	f, err := rd.Read()
+	if err != nil {
+		return "", ""
+	}
+	bs, err := json.Marshal(&f)
+	if err != nil {
+		return "", ""
+	}
+	var m map[string]json.RawMessage
+	if json.Unmarshal(bs, &m) != nil {
+		return "", ""
+	}
+	delete(m, "validateOpts")
+	out, err := json.Marshal(m)
+	if err != nil {
+		return "", ""
+	}
+	return string(out), oj
+}
+
 var garbage = []string{"garbage\n", "", "101 not a header\n", "{\"fileHeader\":", "9999999999999999999999999999999999999999999999999999999999999999999999999999999999999999999999\n"}
 
 func (p *pool) bad(r *rng.R) string {
@@ -938,6 +969,16 @@ func genCase(r *rng.R, p *pool, g genOpts) *Case {
 				data = pick().jsonT
 				if len(p.optsJSON) > 0 && r.Chance(1, 5) {
 					data = p.optsJSON[r.Intn(len(p.optsJSON))] // valid under the options the document itself carries
+				} else if c.OptsExt != "" && r.Chance(1, 4) {
+					// a JSON document that parses only with the ValidateOpts of its side-car file
+					if dj, oj := needsOptsJSON(r.Bool(), pick().text); dj != "" {
+						side := strings.TrimSuffix(full, path.Ext(name)) + c.OptsExt
+						if _, clash := c.Files[side]; !clash && !used[path.Base(side)] {
+							used[path.Base(side)] = true
+							c.Files[side] = oj
+							data = dj
+						}
+					}
 				}
 				if bad && r.Chance(1, 3) {
 					if r.Bool() {
